@@ -41,7 +41,7 @@ def cases(tier, seed):
     n, length = (60, 8) if tier == "quick" else (3000, 14)
     for i in range(n):
         yield {"seed": seed, "idx": i, "length": length}
-    for i in range(48 if tier == "quick" else 400):
+    for i in range(57 if tier == "quick" else 400):
         yield {"kind": "rebind", "seed": seed, "idx": i}
 
 
@@ -340,6 +340,12 @@ REBINDS = {  # statement executed in the main module, after versions were asked 
     "variable_to_an_opaque_object_and_back": ["FACTOR = object()", "FACTOR = 7"],
     # ... the module alias in front of an undefined attribute is re-bound to a module that has the attribute
     "module_alias_in_front_of_an_undefined_attribute": ["import %(pkg)s.other3 as cfg"],
+    # ... a tracked variable goes from a value memento cannot describe to one of the same type that it can
+    "variable_from_an_opaque_dict_to_a_plain_dict": ["FACTOR = {(1, 2): 3}", "FACTOR = {\"a\": 3}"],
+    # ... an opaque container is changed in place into one memento can describe
+    "opaque_list_changed_in_place": ["FACTOR = [{1, 2}]", "FACTOR[0] = 5"],
+    # ... a helper's name is bound to a function of another package, then to a function of the program
+    "helper_name_to_a_foreign_function_and_back": ["import json\nscale = json.dumps", "scale = scale2"],
     # ... the name of a plain helper is re-bound to an array
     "helper_name_to_an_array": ["import numpy as _np\nscale = _np.arange(3)"],
 }
